@@ -413,6 +413,74 @@ def case_map(case):
     return run_case(fn, replay, signature=lambda f, v: f["name"], sample=dict(case=str(case)[:200]), key=str(case)[:300], witness=True)
 
 
+def case_gemmx_channels(case):
+    """SNAXGEMMXAccelerator.lower_acc_launch, branch for per-channel rescale parameters (launch carries mult_vals /
+    shift_vals / m): the lowered CSR writes are executed on a register file; at every write to launch_gemmx the shift
+    and multiplier registers must hold the values of that group of n channels (4 shifts per register, channel j in
+    byte j mod 4), M and temporal_loop_bound hold m // groups, the streamer is launched once."""
+    from xdsl.dialects import arith, builtin
+    from xdsl.dialects.builtin import DenseArrayBase, IntegerAttr, i32
+
+    from snaxc.accelerators.snax_gemmx import SNAXGEMMXAccelerator
+    from snaxc.dialects import accfg
+
+    n, groups, seed = case
+
+    def fn():
+        E = eng()
+        rnd = random.Random(seed)
+        acc = SNAXGEMMXAccelerator(m=8, n=n, k=8)
+        aop = acc.generate_acc_op()
+        mults = [rnd.randrange(1, 1 << 30) for _ in range(n * groups)]
+        shifts = [rnd.randrange(1, 60) for _ in range(n * groups)]
+        m_total = groups * rnd.choice([1, 2, 3])
+        lg, ls = arith.ConstantOp(IntegerAttr(1, 32)), arith.ConstantOp(IntegerAttr(1, 32))
+        st = accfg.SetupOp([], [], "snax_gemmx")
+        launch = accfg.LaunchOp([lg, ls], ["launch_gemmx", "launch_streamer"], st)
+        launch.attributes["mult_vals"] = DenseArrayBase.from_list(i32, mults)
+        launch.attributes["shift_vals"] = DenseArrayBase.from_list(i32, shifts)
+        launch.attributes["m"] = IntegerAttr(m_total, 32)
+        ops = list(acc.lower_acc_launch(launch, aop))
+        I = irsym.Interp(W=32)
+        I.handlers.update(concrete_handlers(I))
+        I.set(lg.result, z3.BitVecVal(1, 32))
+        I.set(ls.result, z3.BitVecVal(1, 32))
+        I.state["status_reads"] = 3  # the accelerator answers 'done' at the first poll
+        for op in ops:
+            I.run_op(op)
+        fmap = {k: v.value.data for k, v in aop.field_items()}
+        lmap = {k: v.value.data for k, v in aop.launch_field_items()}
+        regs, group, streamer_launches = {}, 0, 0
+        val = lambda v: z3.simplify(v).as_long() if z3.is_expr(v) else int(v)
+        for e in I.events:
+            if e[0] != "write":
+                continue
+            a, v = val(e[1]), val(e[2])
+            if a == lmap["launch_streamer"]:
+                streamer_launches += 1
+            elif a == lmap["launch_gemmx"]:
+                info = dict(group=group, n=n, groups=groups)
+                exp_m = m_total // groups
+                E.oblige("channels:M_and_loop_bound_per_group", regs.get(fmap["M"]) == exp_m and regs.get(fmap["temporal_loop_bound"]) == exp_m,
+                         dict(M=regs.get(fmap["M"]), expected=exp_m, **info))
+                for j in range(n):
+                    E.oblige("channels:multiplier_register_holds_the_channel_of_this_group", regs.get(fmap[f"mult_{j}"]) == mults[group * n + j],
+                             dict(channel=j, **info))
+                for r in range((n + 3) // 4):
+                    sh = shifts[group * n + 4 * r: group * n + 4 * r + 4]
+                    packed = sum((x & 255) << (8 * b) for b, x in enumerate(sh))
+                    E.oblige("channels:shift_register_holds_the_channels_of_this_group", regs.get(fmap[f"shift_{r}"]) == packed,
+                             dict(register=r, got=regs.get(fmap[f"shift_{r}"]), expected=packed, **info))
+                group += 1
+            else:
+                regs[a] = v
+        E.oblige("channels:one_accelerator_launch_per_group", group == groups, dict(launches=group, groups=groups))
+        E.oblige("channels:streamer_launched_once", streamer_launches == 1, dict(launches=streamer_launches))
+        E.oblige("explored", True)
+
+    return run_case(fn, lambda f: replay_pinned(fn, f), signature=lambda f, v: f["name"], sample=dict(case=str(case)), key=str(case))
+
+
 def phs_pe(nswitch):
     """a PE with `nswitch` true switches built by merging kernels through the real combine API."""
     from xdsl.dialects import arith, builtin, linalg
@@ -507,6 +575,9 @@ def run(chk):
     mcases += [("phs", i) for i in range(0, 7)]
     if only in (None, "map"):
         chk.add_results("register_maps", pmap(case_map, mcases, chunks=4))
+    if only in (None, "channels"):
+        ccases = [(n, g, rnd.randrange(1 << 30)) for n in (8, 4, 16) for g in (2, 3)] + [(8, 1, 7), (8, 4, rnd.randrange(1 << 30))]
+        chk.add_results("gemmx_per_channel_launch", pmap(case_gemmx_channels, ccases, chunks=2))
     chk.bounds = dict(programs=len(cases), unroll_K=K, gemmx_n="1..17", streamer_configs="random by VERIF_SEED: 1..5 streamers, 1..6 temporal dims, 1..2 spatial dims, 0..3 options",
                       xdma_multicast="symbolic 1..256", phs_switches="0..6")
     chk.outside = ["xDMA accelerator with non-default streamer configuration (constructor asserts on the default)",
